@@ -96,8 +96,13 @@ def run_property(prop, tier, seed, replay=None):
     log("%d cases / %d lines (%s tier, seed %d)" % (len(cases), len(lines), tier, seed))
 
     # ---- 4. run both sides ----------------------------------------------------------
-    model_out = core.run_lines(exe_model, lines)
+    # cases marked impl_only (inputs on which the extracted model is too slow, e.g. nesting thousands deep) are judged by the oracle
+    # alone: the model's place is taken by the first flavour's output, so they never count as a disagreement
+    impl_only = [bool(cases[ci].meta.get("impl_only")) for ci in index]
+    mlines = [l for l, io_ in zip(lines, impl_only) if not io_]
+    mres = iter(core.run_lines(exe_model, mlines))
     impl_out = {fl: core.run_lines(exes[fl], lines) for fl in flavours}
+    model_out = [impl_out[flavours[0]][k] if io_ else next(mres) for k, io_ in enumerate(impl_only)]
 
     per_case_model = [[] for _ in cases]
     per_case_impl = {fl: [[] for _ in cases] for fl in flavours}
